@@ -72,6 +72,26 @@ def build_jobs():
     jobs.append({"name": "mutating:2", "kind": "synthetic", "vendor": "cisco", "model": "Cisco Catalyst C3750", "rul": rul,
                  "old": [{"row": ["x", "2"], "kids": []}, {"row": ["blk", "1"], "kids": [{"row": ["z", "1"], "kids": []}]}],
                  "new": [{"row": ["x", "3"], "kids": []}, {"row": ["blk", "1"], "kids": []}]})
+    # ordering rulebooks (compiled once per process, shared by every job): sibling rules with children whose languages overlap -- a row
+    # matched by both takes its child order from both, rows matched by one of them must not inherit anything from that earlier job
+    order = "blk */T\\S*/\n    x *\n    y *\nblk */\\S*1/\n    y *\n    z *\n"
+    rul2 = "blk *\n    x *\n    y *\n    z *\n"
+    kids = [{"row": ["z", "1"], "kids": []}, {"row": ["y", "1"], "kids": []}, {"row": ["x", "1"], "kids": []}]
+    for nm, key in (("order:both", "T1"), ("order:first-only", "T2"), ("order:second-only", "A1")):
+        jobs.append({"name": nm, "kind": "synthetic", "vendor": "huawei", "model": "Huawei CE6870", "rul": rul2, "order": order,
+                     "old": [], "new": [{"row": ["blk", key], "kids": kids}]})
+    tun = [{"row": ["interface", "Tunnel0/0/1"], "kids": [{"row": ["mtu", "1400"], "kids": []}, {"row": ["description", "t"], "kids": []},
+                                                          {"row": ["tunnel-protocol", "gre"], "kids": []}]}]
+    jobs.append({"name": "hw-tunnel", "kind": "shipped", "model": "Huawei CE6870", "old": [], "new": tun})
+    # a row text that the shipped rulebook compiles with %ignore_case and an ACL compiles without: both go through one compiler cache
+    icase_acl = "interface *\n    ipv6 enable\n    ipv6 nd ra min-interval\n    ipv6 nd ra max-interval ~\n"
+    jobs.append({"name": "icase:acl", "kind": "shipped-acl", "model": "Huawei CE6870", "acl": icase_acl,
+                 "old": [{"row": ["interface", "100GE1/0/1"], "kids": [{"row": ["ipv6", "enable"], "kids": []},
+                                                                     {"row": ["ipv6", "nd", "ra", "min-interval", "200"], "kids": []},
+                                                                     {"row": ["ipv6", "nd", "ra", "max-interval", "600"], "kids": []}]}],
+                 "new": [{"row": ["interface", "100GE1/0/1"], "kids": [{"row": ["ipv6", "enable"], "kids": []},
+                                                                     {"row": ["ipv6", "nd", "ra", "Min-Interval", "200"], "kids": []},
+                                                                     {"row": ["ipv6", "nd", "ra", "max-interval", "600"], "kids": []}]}]})
     jobs.append({"name": "unknown-rows", "kind": "shipped", "model": "Cisco Catalyst C3750",
                  "old": [{"row": ["zz-unknown-row", "1"], "kids": []}, {"row": ["hostname", "a"], "kids": []}],
                  "new": [{"row": ["zz-unknown-row", "2"], "kids": []}, {"row": ["hostname", "b"], "kids": []}]})
@@ -90,22 +110,24 @@ def run_job(job):
     old, new = cases.tree(job["old"]), cases.tree(job["new"])
     old0, new0 = copy.deepcopy(old), copy.deepcopy(new)
     acl = None
+    if job["kind"] == "shipped-acl":
+        # the generators' ACL is compiled before the rulebook is looked up (as annet.gen does)
+        from annet.annlib.rbparser.acl import compile_acl_text
+        acl = compile_acl_text(job["acl"], hw.vendor)          # lru_cached: the same object is shared by every job of the process
     if job["kind"] == "synthetic":
         from annet.rulebook.patching import compile_patching_text
         from annet.annlib.rbparser.ordering import compile_ordering_text
         from annet.rulebook.deploying import compile_deploying_text
-        rb = {"patching": compile_patching_text(job["rul"], job["vendor"]), "ordering": compile_ordering_text("", job["vendor"]),
+        rb = {"patching": compile_patching_text(job["rul"], job["vendor"]), "ordering": compile_ordering_text(job.get("order", ""), job["vendor"]),
               "deploying": compile_deploying_text("", job["vendor"])}
     else:
         rb = rulebook.get_rulebook(hw)
-    if job["kind"] == "shipped-acl":
-        from annet.annlib.rbparser.acl import compile_acl_text
-        acl = compile_acl_text(job["acl"], hw.vendor)          # lru_cached: the same object is shared by every job of the process
     rb0 = digest(canon(rb))
     fmt = registry_connector.get().match(hw).make_formatter(indent="")
     d, p = api._diff_and_patch(E.device(hw), old, new, acl, None, False, rb=rb)
     res = {"diff": cases.jdiff(d), "cmds": [list(x) for x in fmt.cmd_paths(p)],
-           "ordered": E.plain(patching.Orderer.from_hw(hw).order_config(new)) if hasattr(patching.Orderer, "from_hw") else None}
+           "ordered": E.plain((patching.Orderer(rb["ordering"], job["vendor"]) if job["kind"] == "synthetic" else patching.Orderer.from_hw(hw))
+                              .order_config(new))}
     frames = (E.plain(old) == E.plain(old0) and list(old) == list(old0) and E.plain(new) == E.plain(new0) and list(new) == list(new0)
               and digest(canon(rb)) == rb0)
     return digest(res), frames, res
